@@ -318,6 +318,16 @@ def gen_coeffs():
     out.append('def delj_quot (epsj wj VInt_i : Rat) : Rat := %s' % tr(e, Ctx(names={'epsj': 'epsj', 'wj': 'wj'}, src=t, subscript=sub2)))
     e, t = c_expr_to_ast(mg.group(1)); out.append('/-- compute_delj guard: %s -/' % t)
     out.append('def delj_guard (epsj wj : Rat) : Bool := %s' % trb(e.body, Ctx(names={'epsj': 'epsj', 'wj': 'wj'}, src=t)))
+    # tridiag.c: statement-level shape of the Thomas sweep that Model/Tridiag.lean (`solveAux`) transcribes
+    tf_ = c_functions(os.path.join(REPO, 'dadi', 'tridiag.c'))
+    if 'tridiag_premalloc' not in tf_ or 'tridiag' not in tf_:
+        raise TranslateError('tridiag.c: functions not found')
+    tb = re.sub(r'\s+', '', tf_['tridiag_premalloc'][1])
+    tpat = ['doublebet=b[0];', 'u[0]=r[0]/bet;', 'for(j=1;j<=n-1;j++){gam[j]=c[j-1]/bet;bet=b[j]-a[j]*gam[j];u[j]=(r[j]-a[j]*u[j-1])/bet;}',
+            'for(j=(n-2);j>=0;j--){u[j]-=gam[j+1]*u[j+1];}']
+    tb2 = re.sub(r'\s+', '', tf_['tridiag'][1])
+    out.append('/-- tridiag.c `tridiag_premalloc` consists of exactly the forward and backward sweeps transcribed by `solveAux` -/')
+    out.append('def tridiagShapeOk : Bool := %s' % ('true' if all(p_ in tb for p_ in tpat) and 'tridiag_premalloc(a,b,c,r,u,n);' in tb2 else 'false'))
     # per-kernel wiring: Mfunc call argument lists, bc guards, bc terms, flat index
     out.append(gen_kernel_wiring())
     out.append('end C')
